@@ -9,6 +9,12 @@
 
   The wrapper stage of the closed model (`wrapStageFull`, search included) is proved never to abort on well-formed
   lines (`LinesOk`: token indices in range, parents are earlier lines): `wrapper_stage_never_aborts` below.
+
+  The whole closed model `formatFull` answers exactly when its parser stage answers
+  (`formatFull_answers_iff_parser_answers`, `formatFull_none_iff`): the scanner always answers, the lines the parser
+  model hands on are well formed (`parse_lines_ok`), voiding keeps them so (`voidLines_ok`), the token rules keep
+  one entry per token (`preWrap_length`), hence the wrapper stage answers.  What stays open is the parser model
+  itself: that `parseFileMasked` never returns `none` (panic sites of the real parser, fuel) is not proved.
 -/
 import PasfmtModel.Proofs.MachineCover
 import PasfmtModel.Proofs.Tree
@@ -17,6 +23,7 @@ import PasfmtModel.Model.Cursor
 import PasfmtModel.Proofs.LexTotal
 import PasfmtModel.Proofs.LexBoundaries
 import PasfmtModel.Proofs.StageTotalSearch
+import PasfmtModel.Proofs.PipelineTotal
 
 namespace Pasfmt.C04
 
@@ -125,5 +132,53 @@ theorem wrapper_stage_never_aborts (cfg : Config) (lines : List Line) (ft : FT) 
 /-- the well-formedness of the lines is a check that can be run (`decide`): here two lines over three tokens, the
     second hanging off token 1 of the first -/
 example : LinesOk [⟨none, 0, [0, 1], .lEof⟩, ⟨some ⟨0, 1⟩, 1, [2], .lEof⟩] 3 := by decide
+
+/-! ### the whole closed model: only the parser stage can fail to answer -/
+
+/-- **Whenever the parser model answers, the lines it hands on (after the three consolidators) are well formed for the
+    scanned tokens**: every token index of every line is the index of a scanned token, and the parent of a line is an
+    earlier line. -/
+theorem parse_lines_ok (raw : List RawTok) (po : ParserOut) (h : parseAndConsolidate raw = some po) :
+    LinesOk po.lines raw.length := Pasfmt.parse_lines_ok raw po h
+
+/-- **Voiding keeps the lines well formed**: the void step empties the token list of a line whose tokens are all
+    ignored; it keeps the number of lines and every parent. -/
+theorem voidLines_ok (marks : List Bool) (lines : List Line) (n : Nat) (h : LinesOk lines n) :
+    LinesOk (voidLines marks lines) n := Pasfmt.voidLines_ok marks lines n h
+
+/-- **The state handed to the wrapper stage has one entry of formatting data per scanned token**, whatever the parser
+    component returns. -/
+theorem preWrap_length (O : Oracles) (raw : List RawTok) : (preWrap O raw).2.2.length = raw.length :=
+  Pasfmt.preWrap_length O raw
+
+/-- **The closed model of the whole formatter answers exactly when its parser stage answers**: for every
+    configuration, every `alnum` and every input, `formatFull` returns an output if and only if the parser model
+    (with the three consolidators) returns lines for the scanned tokens.  The scanner always answers; ignore marks,
+    voiding, token rules and the reconstructor are total functions; the wrapper stage (search included) answers
+    because the parser's lines are well formed.  So the only `none` of `formatFull` is the parser model's `none`
+    (a panic site of the real parser, or the model's fuel running out; never observed on any generated input). -/
+theorem formatFull_answers_iff_parser_answers (cfg : Config) (alnum : Bytes → Bool) (s : Bytes) :
+    (∃ out, formatFull cfg alnum s = some out) ↔
+      ∃ raw po, lex s = some raw ∧ parseAndConsolidate raw = some po :=
+  Pasfmt.formatFull_answers_iff_parser_answers cfg alnum s
+
+/-- **The closed model gives no answer exactly when the parser model gives none on the scanned tokens** (the scanner
+    itself always returns tokens). -/
+theorem formatFull_none_iff (cfg : Config) (alnum : Bytes → Bool) (s : Bytes) :
+    formatFull cfg alnum s = none ↔ ∃ raw, lex s = some raw ∧ parseAndConsolidate raw = none :=
+  Pasfmt.formatFull_none_iff cfg alnum s
+
+/-- non-vacuity of the right-hand side: on `a:=b;` the scanner and the parser model answer (checked by evaluation of
+    these two stages only), hence, for every configuration, so does the whole closed model -/
+example (cfg : Config) (alnum : Bytes → Bool) : ∃ out, formatFull cfg alnum "a:=b;".toUTF8.toList = some out := by
+  rw [formatFull_answers_iff_parser_answers]
+  have h : ((lex "a:=b;".toUTF8.toList).bind parseAndConsolidate).isSome = true := by decide +kernel
+  cases hl : lex "a:=b;".toUTF8.toList with
+  | none => rw [hl] at h; cases h
+  | some raw =>
+    rw [hl] at h
+    cases hp : parseAndConsolidate raw with
+    | none => simp [hp] at h
+    | some po => exact ⟨raw, po, rfl, hp⟩
 
 end Pasfmt.C04
